@@ -240,9 +240,11 @@ func runC30(args []string) {
 			if sp.anon {
 				w.Del("Authorization")
 			}
+			orig := append([]byte(nil), w.Body...)
 			if mutate != nil && !mutate(w) {
 				return
 			}
+			out.Line("orig %s %s", label, verifx.Hex(orig)) // the body before the single-point mutation
 			verifx.SendWire(out, srv.l, label, sp.mode, w, sp.cred.AK, sp.payload, sdk)
 			present, content, note := srv.readBack(key, sp.cred)
 			if note != "" {
